@@ -272,18 +272,19 @@ class Tr(object):
                     other = B(rest)
                 return ("XIfHasConn", on_type, self.expr(X, env, depth), fwd, other)
             # the exc_info triple of _handle_ctxexit
-            if u(st) == CTX_IF:
+            if u(st) in (CTX_IF % "exc", CTX_IF % "self._unbox_exc(exc)"):
                 env2 = dict(env)
                 cur = self.var("exc", env, depth)
                 for i, n in enumerate(("exc", "typ", "tb")):
                     env2[n] = ("ctx", depth, i)
-                return ("XLet", ("XCtxArgs", cur), self.block(rest, env2, depth + 1))
+                load = "true" if u(st) == CTX_IF % "self._unbox_exc(exc)" else "false"
+                return ("XLet", ("XCtxArgs", load, cur), self.block(rest, env2, depth + 1))
         raise Unrecognised("statement " + u(st).split("\n")[0])
 
 
 CTX_IF = """if exc:
     try:
-        raise exc
+        raise %s
     except Exception:
         exc, typ, tb = sys.exc_info()
 else:
